@@ -126,12 +126,17 @@ C2S(c, s) ==
     ELSE IF c[1] = 1 THEN <<1, Fin(0), Fin(AxisAz(c)), Fin(AxisEl(c))>>
     ELSE s
 
+\* m is the rotation matrix times `den` (1 when absent): rotations about axes that are not coordinate axes have rational
+\* entries (n R is an integer matrix for a quaternion with integer components of squared norm n); the generator chooses
+\* coordinates for which the quotient is exact
 Posed(c, pose) ==
     IF c[1] # 0 \/ ~IsSome(pose) \/ ~AllFin(c) THEN c
     ELSE LET m == pose.some.m  t == pose.some.t  x == Val(c[2]) y == Val(c[3]) z == Val(c[4])
-         IN <<0, Fin(m[1][1] * x + m[1][2] * y + m[1][3] * z + t[1]),
-                 Fin(m[2][1] * x + m[2][2] * y + m[2][3] * z + t[2]),
-                 Fin(m[3][1] * x + m[3][2] * y + m[3][3] * z + t[3])>>
+             den == IF "den" \in DOMAIN pose.some THEN pose.some.den ELSE 1
+             QD(a) == IF a >= 0 THEN a \div den ELSE -((-a) \div den)
+         IN <<0, Fin(QD(m[1][1] * x + m[1][2] * y + m[1][3] * z) + t[1]),
+                 Fin(QD(m[2][1] * x + m[2][2] * y + m[2][3] * z) + t[2]),
+                 Fin(QD(m[3][1] * x + m[3][2] * y + m[3][3] * z) + t[3])>>
 
 \* expected geometry of a point: <<cartesian, spherical, c2s decided?>>
 Geometry(proto, p, pose, opts) ==
